@@ -46,8 +46,10 @@ structure St where
   histC  : Array String := #[]
   rrC    : String := ""
   rrN    : Nat := 0
-  -- a log file was cut in the middle of a record (harness op srv.tear kind=bytes): the next start has to fail
-  tornBytes : Bool := false
+  -- the process was killed (SIGKILL) somewhere inside the last operation: its single disk write either
+  -- happened or not. `srv` holds the state with the write, `alt` the state without it; the next start decides.
+  alt    : Option State := none
+  quiet  : Bool := false
 
 def mkV (o : Std.HashMap String Bool) (dflt : Bool) : Verify :=
   fun k m s => (o.get? (hexOfBytes k ++ "|" ++ hexOfBytes m ++ "|" ++ hexOfBytes s)).getD dflt
@@ -90,7 +92,8 @@ def srvOp (kind : String) (a : Args) : Option Op :=
   | _ => none
 
 def report (st : St) (what model impl : String) : IO St := do
-  IO.println s!"MISMATCH line={st.lines} {what} model=[{model}] impl=[{impl}]"
+  if !st.quiet then
+    IO.println s!"MISMATCH line={st.lines} {what} model=[{model}] impl=[{impl}]"
   return { st with mism := st.mism + 1 }
 
 /-- Compare observed text: either a full canonical string or `#<fnv64>` of it. -/
@@ -176,6 +179,9 @@ def handleSrvOp (st : St) (kind : String) (a : Args) (obs : String) : IO St := d
     if obs == "CRASH" then
       -- the process died inside this operation after its file write: only the disk effect survives
       return refresh { st with srv := s1 } old (some op)
+    if obs == "MAYBE" then
+      -- the process was killed at an arbitrary instant inside this operation
+      return refresh { st with srv := s1, alt := some old } old (some op)
     let st := refresh { st with srv := s1 } old (some op)
     -- observed: "<out>" optionally followed by " #<hash of snapshot after the op>"
     let (obsOut, obsHash) := match obs.splitOn " #" with
@@ -205,16 +211,24 @@ def handleSrv (st : St) (kind : String) (a : Args) (obs : String) : IO St := do
   | "srv.tear" =>
     -- a crash left the directory in a torn state (the process is gone: only the disk matters)
     let d := st.srv.disk
-    if arg a "kind" == "bytes" then return { st with tornBytes := true }
+    -- kind=bytes: a log ends inside a record (an append cut short by a kill). The partial record belongs to
+    -- no completed operation; a start drops it (repair F25), so the record-level disk of the model is unchanged
+    if arg a "kind" == "bytes" then return st
     let d' := if arg a "kind" == "gca" then { d with gcaKey := some [] }
               else { d with reports := d.reports.take (argNat a "n") }
     return { st with srv := { st.srv with disk := d' } }
   | "srv.restart" =>
-    if st.tornBytes then
-      -- every loader refuses a log that ends inside a record; nothing else is claimed about such a directory
-      let st := { st with tornBytes := false }
-      if obs == "fail" then return st else report st kind "fail" obs
-    else handleSrvOp st kind a obs
+    match st.alt with
+      | none => handleSrvOp st kind a obs
+      | some altS =>
+        -- try "the write happened", then "it did not"; report (against the first) only if neither explains the start
+        let base := { st with alt := none }
+        let a1 ← handleSrvOp { base with quiet := true } kind a obs
+        if a1.mism == st.mism then return { a1 with quiet := false } else
+        let st2 := refresh { base with srv := altS } altS none
+        let a2 ← handleSrvOp { st2 with quiet := true } kind a obs
+        if a2.mism == st.mism then return { a2 with quiet := false } else
+        handleSrvOp base kind a obs
   | "srv.snap" =>
     let m := snapshotC st
     if sameObs m obs then return st else report st kind m obs
